@@ -141,7 +141,12 @@ def body(ctx):
         sb = hyruns.SiteBatch(ids, k)
         s = rng.randrange(n + 2)
         site = ids[s] if s < n else -5
-        got = sb.search(site)
+        try:
+            got = sb.search(site)
+        except Exception:  # noqa  (a site that is in no batch may as well be reported with an exception)
+            got = None
+            if s < n:
+                ctx.finding("search/raises_for_listed_site", "search raises for a site of the list", {"n": n, "k": k, "pos": s})
         add(f"search {n} {k} {s}", "none" if got is None else f"some {got}", {"n": n, "k": k, "pos": s})
         ctx.count(("search", n, k, s), got is not None, "search")
         if s < n:
